@@ -17,8 +17,9 @@ def run_c07(tier):
             recs = jsonl(run_bin(variant, "ex_record", [upath, tpath, trace, maxpairs]))
             summ = [r for r in recs if r["kind"] == "summary"][0]
             for r in recs:
-                if r["kind"] == "finding" and r["prop"] == "*":
+                if r["kind"] == "finding" and r["prop"] in ("*", prop):
                     r["prop"] = prop
+                    r["variant"] = variant
                     findings.append(r)
             if summ.get("hang"):
                 summ.update({"universe": u, "states": 0, "proofs": 0, "explain_panics": 0, "histories_aborted_by_build_panics": 0})
